@@ -63,7 +63,7 @@ def fuzz_contract(c, n, seed):
     runs = 0
     rejected = 0
     failures = []
-    if n <= 0 or c.assumed:
+    if n <= 0 or c.assumed or c.native_skip:
         return {'runs': 0, 'failures': []}
     sampler = c.__dict__.get('sampler')
     tries = 0
